@@ -1,0 +1,6 @@
+//! Verification hooks, only compiled with `--cfg hipstr_verif`.
+//!
+//! Re-exports the crate-private counted pointer so that external model-checking
+//! harnesses (e.g. loom programs with a tracked payload) can exercise it.
+
+pub use crate::smart::{Inner, Kind, Smart, UpdateResult};
